@@ -24,10 +24,15 @@ def wcasEnv (cid : Nat) (k : String) (exp cas : Nat) (val : Option String) (o : 
        ("exp", .int (absExp now exp)), ("$isJSON", ofBool ((!(o.raw || o.append)) && val.isSome)),
        ("$revSeqNo", .int ((match old with | some r => r.rev | none => 0) + 1)), ("$tombstone", ofBool val.isNone)]
 
+/-- What `WriteCas` read into `wasTombstone` before choosing its statement. -/
+def wasTomb : Option Row → Bool
+  | some r => r.tomb
+  | none => false
+
 /-- `WriteCas`, whenever it reaches its `Exec` (it returns before that only for a missing key with a non-zero CAS). -/
 theorem tie_wcas (cid : Nat) (k : String) (exp cas : Nat) (val : Option String) (o : WOpts) (newCas now : Nat) (old : Option Row)
     (hreach : old.isSome ∨ cas = 0) :
-    wcasExec o cas (match old with | some r => r.tomb | none => false) (wcasEnv cid k exp cas val o newCas now old) (old.map (enc cid k))
+    wcasExec o cas (wasTomb old) (wcasEnv cid k exp cas val o newCas now old) (old.map (enc cid k))
       = match wcasRow k exp cas val o newCas now old with
         | .inr (some r', _, _) => { row := some (enc cid k r'), affected := 1 }
         | _ => { row := old.map (enc cid k), affected := 0 } := by
@@ -36,7 +41,7 @@ theorem tie_wcas (cid : Nat) (k : String) (exp cas : Nat) (val : Option String) 
     have hc : cas = 0 := by simpa using hreach
     subst hc
     cases val <;> cases ha : o.append <;> cases hr : o.raw <;> cases hao : o.addOnly <;>
-      simp [wcasExec, wcasEnv, wcasRow, ha, hr, hao, upd_cas_exp_isJSON_revSeqNo_tombstone_value_xattrs__by_cas_collection_key_valueSet, ups_cas_collection_exp_isJSON_key_revSeqNo_tombstone_value__set_cas_exp_isJSON_revSeqNo_tombstone_value_xattrsN__if_tombstoneIs1, Update.exec,
+      simp [wasTomb, wcasExec, wcasEnv, wcasRow, ha, hr, hao, upd_cas_exp_isJSON_revSeqNo_tombstone_value_xattrs__by_cas_collection_key_valueSet, ups_cas_collection_exp_isJSON_key_revSeqNo_tombstone_value__set_cas_exp_isJSON_revSeqNo_tombstone_value_xattrsN__if_tombstoneIs1, Update.exec,
         Upsert.exec, insertRow, SRow.set, E.eval, env, enc, encV, encX, ofBool, defaultRow]
   | some r =>
     obtain ⟨rowid, value, rcas, rexp, risJSON, xattrs, tomb, rev⟩ := r
@@ -45,21 +50,21 @@ theorem tie_wcas (cid : Nat) (k : String) (exp cas : Nat) (val : Option String) 
       by_cases hz : rcas = 0
       · subst hz
         cases val <;> cases ha : o.append <;> cases hr : o.raw <;> cases hao : o.addOnly <;> cases tomb <;> cases value <;>
-          simp [wcasExec, wcasEnv, wcasRow, ha, hr, hao, upd_cas_exp_isJSON_revSeqNo_tombstone_value_xattrs__by_cas_collection_key_valueSet, upd_cas_exp_isJSON_revSeqNo_tombstone_value_xattrs__by_cas_collection_key,
+          simp [wasTomb, wcasExec, wcasEnv, wcasRow, ha, hr, hao, upd_cas_exp_isJSON_revSeqNo_tombstone_value_xattrs__by_cas_collection_key_valueSet, upd_cas_exp_isJSON_revSeqNo_tombstone_value_xattrs__by_cas_collection_key,
             ups_cas_collection_exp_isJSON_key_revSeqNo_tombstone_value__set_cas_exp_isJSON_revSeqNo_tombstone_value_xattrsN__if_tombstoneIs1, frag_and_cas, Update.exec, Upsert.exec, applySets, SRow.set, SRow.get, E.eval,
             env, enc, encV, encX, ofBool, SV.truthy, SV.same, SV.asText]
       · cases val <;> cases ha : o.append <;> cases hr : o.raw <;> cases hao : o.addOnly <;> cases tomb <;> cases value <;>
-          simp [wcasExec, wcasEnv, wcasRow, ha, hr, hao, hz, upd_cas_exp_isJSON_revSeqNo_tombstone_value_xattrs__by_cas_collection_key_valueSet, upd_cas_exp_isJSON_revSeqNo_tombstone_value_xattrs__by_cas_collection_key,
+          simp [wasTomb, wcasExec, wcasEnv, wcasRow, ha, hr, hao, hz, upd_cas_exp_isJSON_revSeqNo_tombstone_value_xattrs__by_cas_collection_key_valueSet, upd_cas_exp_isJSON_revSeqNo_tombstone_value_xattrs__by_cas_collection_key,
             ups_cas_collection_exp_isJSON_key_revSeqNo_tombstone_value__set_cas_exp_isJSON_revSeqNo_tombstone_value_xattrsN__if_tombstoneIs1, frag_and_cas, Update.exec, Upsert.exec, applySets, SRow.set, SRow.get, E.eval,
             env, enc, encV, encX, ofBool, SV.truthy, SV.same, SV.asText]
     · by_cases hz : cas = 0
       · subst hz
         cases val <;> cases ha : o.append <;> cases hr : o.raw <;> cases hao : o.addOnly <;> cases tomb <;> cases value <;>
-          simp [wcasExec, wcasEnv, wcasRow, ha, hr, hao, hcas, upd_cas_exp_isJSON_revSeqNo_tombstone_value_xattrs__by_cas_collection_key_valueSet, upd_cas_exp_isJSON_revSeqNo_tombstone_value_xattrs__by_cas_collection_key,
+          simp [wasTomb, wcasExec, wcasEnv, wcasRow, ha, hr, hao, hcas, upd_cas_exp_isJSON_revSeqNo_tombstone_value_xattrs__by_cas_collection_key_valueSet, upd_cas_exp_isJSON_revSeqNo_tombstone_value_xattrs__by_cas_collection_key,
             ups_cas_collection_exp_isJSON_key_revSeqNo_tombstone_value__set_cas_exp_isJSON_revSeqNo_tombstone_value_xattrsN__if_tombstoneIs1, frag_and_cas, Update.exec, Upsert.exec, applySets, SRow.set, SRow.get, E.eval,
             env, enc, encV, encX, ofBool, SV.truthy, SV.same, SV.asText]
       · cases val <;> cases ha : o.append <;> cases hr : o.raw <;> cases hao : o.addOnly <;> cases tomb <;> cases value <;>
-          simp [wcasExec, wcasEnv, wcasRow, ha, hr, hao, hcas, hz, upd_cas_exp_isJSON_revSeqNo_tombstone_value_xattrs__by_cas_collection_key_valueSet, upd_cas_exp_isJSON_revSeqNo_tombstone_value_xattrs__by_cas_collection_key,
+          simp [wasTomb, wcasExec, wcasEnv, wcasRow, ha, hr, hao, hcas, hz, upd_cas_exp_isJSON_revSeqNo_tombstone_value_xattrs__by_cas_collection_key_valueSet, upd_cas_exp_isJSON_revSeqNo_tombstone_value_xattrs__by_cas_collection_key,
             ups_cas_collection_exp_isJSON_key_revSeqNo_tombstone_value__set_cas_exp_isJSON_revSeqNo_tombstone_value_xattrsN__if_tombstoneIs1, frag_and_cas, Update.exec, Upsert.exec, applySets, SRow.set, SRow.get, E.eval,
             env, enc, encV, encX, ofBool, SV.truthy, SV.same, SV.asText]
 
